@@ -4,6 +4,11 @@ Line-protocol driver for the C06 model (fan-out queue with consumer groups).
   append <len> | appendn <k> <len> | consume <g> | ack <g> <n> | setc <g> <n> | setseq <g> <n>
   setapp <n> | sync | gc | create <g> | stop <g> | pause <g> | reopen          (state operations)
   get <seq> | pages                                                             (observations)
+  cbegin <g> | cend <g> | appendwake <len> <g> | pausewake <g>     (two-step Consume, Model/FanOutPark.lean:
+      cbegin = a Consume call computes its head and parks; cend = it is woken (Signal) and returns;
+      appendwake = Put, whose broadcast wakes the parked call, and the call returns; pausewake = Pause
+      (signals) and the call returns). They answer `parked | …`, `<result> | …`, `blocked | …` or
+      `not-parked | …`.
 
 State operations answer `<result> | q=<appended>/<ack> | <g>=<consumed>/<ack> ...` (live groups,
 ascending by name); `get` answers `ok <len>` / `out-of-range` / `not-found`; `pages` answers
@@ -13,7 +18,7 @@ The variant of `NewConsumerGroup` that is interpreted is the one selected by the
 fact `Generated.C06.newGroupShape`; with an unknown shape every line answers `bad-op`.
 -/
 import LinVerif.Util.Proto
-import LinVerif.Model.FanOut
+import LinVerif.Model.FanOutPark
 import LinVerif.Generated.C06
 
 namespace LinVerif.Driver.C06
@@ -101,9 +106,43 @@ def stepLine (v : Variant) (s : State) (ws : List String) : State × String :=
   | ["reset"] => (State.init, "ok")
   | _ => (s, "bad-op")
 
+def showPRes : PRes → String
+  | .res r => showRes r
+  | .parkedNow => "parked"
+  | .blocked => "blocked"
+  | .notParked => "not-parked"
+
+def preply (p : PState × PRes) : PState × String := (p.1, showPRes p.2 ++ " | " ++ showState p.1.s)
+
+def pstepLine (v : Variant) (ps : PState) (ws : List String) : PState × String :=
+  match ws with
+  | ["cbegin", g] =>
+    match g.toNat? with
+    | some g => preply (pstep v ps (.cbegin g))
+    | none => (ps, "bad-op")
+  | ["cend", g] =>
+    match g.toNat? with
+    | some g => preply (pstep v ps (.cend g))
+    | none => (ps, "bad-op")
+  | ["appendwake", a, g] =>
+    match a.toNat?, g.toNat? with
+    | some len, some g =>
+      match pstep v ps (.op (.append len)) with
+      | (ps', .res .done) => preply (pstep v ps' (.cend g))
+      | r => preply r
+    | _, _ => (ps, "bad-op")
+  | ["pausewake", g] =>
+    match g.toNat? with
+    | some g => preply (pstep v (pstep v ps (.op (.pause g))).1 (.cend g))
+    | none => (ps, "bad-op")
+  | ["reset"] => (PState.init, "ok")
+  | _ =>
+    let r := stepLine v ps.s ws
+    ({ ps with s := r.1 }, r.2)
+
 def main (_args : List String) : IO Unit :=
   match variantOf Generated.C06.newGroupShape with
-  | some v => Proto.runLoop State.init (stepLine v)
-  | none => Proto.runLoop State.init (fun s _ => (s, "bad-op"))
+  | some v => Proto.runLoop PState.init (pstepLine v)
+  | none => Proto.runLoop PState.init (fun s _ => (s, "bad-op"))
 
 end LinVerif.Driver.C06
